@@ -28,7 +28,7 @@ OPEN = {
 	'C07': 'The HTTP/1.0 + chunked combination is finding F6. The framing clause holds for every stream and fragmentation on both sides (`delivered_messages_framed`, `Props/C07Invariant.lean`); the trailer clause is proved for the trailer reader (`mergeGo_keeps_unannounced`, `unannounced_trailer_400`), not yet lifted to the loop.',
 	'C08': 'The round-trip clause is a theorem (`compose_parse_roundtrip`, `Proofs/HeadersRoundtrip.lean`) for collections without list-valued fields; those (Set-Cookie, WWW-Authenticate, Proxy-Authenticate) are composed field-specifically and judged by the oracle.',
 	'C09': 'The whole element is a theorem (`element_roundtrip`, `Proofs/ElementRoundtrip.lean`): a value and any number of parameters with pairwise different canonical keys and ASCII values free of double quotes parse back in order; the proof carries quote parity across parameters, so no `;` or `,` inside a quoted value cuts and no parameter merges with its neighbour. The list clause is `list_roundtrip` (split of join gives back the composed elements, each parses to its element). Open as theorems: RFC 2231 continuations and RFC 5987 extended values - tied by correspondence for the four element classes.',
-	'C10': 'Proved: the three inner cuts (userinfo, host:port, path) and the five outer cuts (`uri_cuts`, `compose_assemble`): no component leaks into its neighbour. Open as one theorem: the final record (class by scheme, port defaults) - correspondence/oracle. IPv6 literals and IDN hosts go through socket/idna: oracle only.',
+	'C10': 'The whole URI is a theorem since `Props/C10Whole.lean` (`parse_compose`, `compose_parse_compose`): the inner cuts (userinfo, host:port, path), the outer cuts (`uri_cuts`) and the record (class by scheme, port default or explicit) assembled for absolute URIs with a registered-name host. Outside it: IPv4/IPv6 literals and IDN hosts (socket / idna: oracle only), relative references and URIs without authority (correspondence and oracle).',
 	'C11': 'The RFC clause is a theorem for `abspath()` itself (`abspath_eq_rfc`, `normalize_path_rfc`; `Proofs/Rfc.lean`, `Proofs/RfcAbspath.lean`): the buffer-rewriting loop of RFC 3986 §5.2.4 is shown to be a stack machine on segments, the segment loop of `abspath` (`abspathCore`, whose stack also holds, and may pop, the root segment) is related to it, and the root that the loop may have popped is what `abspath` restores since the F60 repair. Trusted there: the transcription of the RFC text.',
 	'C12': 'Degenerate references ("?", "#", "//", "s:") are outside the quantifier.',
 	'C13': 'The unguarded statement is false of the code (F1); `unquote_quote_fixed` proves it for the `%02X` variant, `c13_witness` exhibits the failure.',
